@@ -139,7 +139,7 @@ ESYM = {"C01", "C02", "C03", "C07", "C11", "C12", "C13", "C14", "C15", "C16"}
 # clauses added after the first full pass (see DESIGN.md section 3)
 EXTRA = {
     "C01": "Also: error()/trace() are total (R8); every operand of a body is generated unconditionally; the negation and the failure form of if/then/else are compared as truth tables over (if, then, else) with the expected implication tables (R2/R4); every rule kind with a Negate method, not only the atomic ones, copies everything but the flag; the parser hands each constructor the polarity it was given (R9). The IRIs of the formula are resolved from this profile's prefixes only (R10). The fresh-name counter is never reset (R11); no variable name is also a template-local name (R12). The conversion the set constraints compare values through does not round numbers (R13; one known finding: format_int truncates). Every constraint keyword of a property adds its conjunct independently of the others (R14); every class of a node's @type is indexed (R15). The operator tables are read by evaluating the functions per constant (a switch, a keyed table, a map with a fallback alike). Every atomic constraint built for a property carries that property's own path (R16).",
-    "C02": "Also: one clause per alternative in the aggregations (P5); path rules are named by the fresh-name generator whose counter is never reset in reach of the entry points (P8); fresh expander context (P9). Every traversal result is kept wherever results are collected (P5); the index holds every node because the input is flattened unconditionally (P10). The subject searches exclude no candidate by a second test (P6); a forward and an inverse step yield nodes in the same form (P11; one known finding). A compact IRI expands to its namespace followed by its local name and nothing else (P12); the grammar actions for / and | keep every operand (P13). The helper that merges the default prefixes copies entries, it never adopts the map (P9). No parse result is kept across calls (P14). Nodes the data only refers to are entered in the node index, so a path that passes through one keeps it (P15).",
+    "C02": "Also: one clause per alternative in the aggregations (P5); path rules are named by the fresh-name generator whose counter is never reset in reach of the entry points (P8); fresh expander context (P9). Every traversal result is kept wherever results are collected (P5); the index holds every node because the input is flattened unconditionally (P10). The subject searches exclude no candidate by a second test (P6); a forward and an inverse step yield nodes in the same form (P11; one known finding). A compact IRI expands to its namespace followed by its local name and nothing else (P12); the grammar actions for / and | keep every operand (P13). The helper that merges the default prefixes copies entries, it never adopts the map (P9). No parse result is kept across calls (P14). Nodes the data only refers to are entered in the node index, so a path that passes through one keeps it (P15). The id under which a referenced-only node is indexed is read from the referring value's \"@id\" entry, and the store is not confined to values that failed their type test (P15 #id-source, #reached).",
     "C03": "Also: no report, header field or time survives a call in a package-level variable (L7). The public entry points hand the caller's configurations on unchanged (L8). Every rule of every level reaches the generator (L9); YAML aliases are rejected (L10). The profile name in the header is Profile.Name quoted by the escaping helper and by nothing else (L5).",
     "C04": "Also: the JSON decoder reads the entry point's data text unchanged (E5), the decode dominates the normalisation (E6), explicit panics on the data path never carry nil (E7). An error that is never compared with nil must be returned on every later return (E1); the CLI hands the library the data file as read (E8). No validation outcome survives a call (E9); a failed read ends the CLI with a non-zero status (E10).",
     "C05": "Also: the embedded Rego never prints a data value in its written form (N4; one known finding: as_string of typed literals); the data text is only handed to the decoder, never inspected (N5). The CLI hands the library the data file's bytes as read (N6); only uniqueValues reads values as an array (N7). Placeholder values must not depend on value order or spelling (N8; one known finding); no template reads a value at a computed position (N9). Every class of a node's @type is indexed whatever the other classes and their order (N10). No template prints a value with json.marshal (N4 for templates); no generated code asks whether a property key is present (N11).",
